@@ -148,6 +148,31 @@ def clientCreateShardGroup (d : Data) (db rp : String) (ts : Int) :
         | .error e => .error e
         | .ok r' => .ok (d', shardGroupByTimestamp r'.ShardGroups ts)
 
+/-! ### `Client.PrecreateShardGroups` -/
+
+/-- body of the loop for one policy of the snapshot: the last group in list order decides -/
+def precreateRP (from_ to : Int) (db : String) (d : Data) (r : RetentionPolicyInfo) : Data :=
+  match r.ShardGroups.getLast? with
+  | none => d
+  | some g =>
+    if !Deleted g && Time.Before g.EndTime to && Time.After g.EndTime from_ then
+      let next := Time.Add g.EndTime 1
+      match getRP d db r.Name with
+      | .error _ =>
+        -- `ShardGroupByTimestamp` fails, `createShardGroup` fails the same way: logged, skipped
+        d
+      | .ok r' =>
+        if (shardGroupByTimestamp r'.ShardGroups next).isSome then d
+        else match createShardGroup d db r.Name next with
+          | .ok d' => d'
+          | .error _ => d
+    else d
+
+/-- `Client.PrecreateShardGroups(from, to)`: walks the databases and policies of the data as it was
+    at the start, creating the successor of each policy's last group on the live data -/
+def precreateShardGroups (d : Data) (from_ to : Int) : Data :=
+  d.Databases.foldl (fun acc di => di.RetentionPolicies.foldl (precreateRP from_ to di.Name) acc) d
+
 /-! ### `Data.DeleteShardGroup`, `Data.DropShard`, `Data.PruneShardGroups` -/
 
 /-- `Data.DeleteShardGroup`: sets `DeletedAt = now` on the first group with that id
